@@ -62,6 +62,10 @@ def cases(tier):
         yield l, dict(coverage=0.6, multiword_words=['pass', 'word', 'love', 'you', 'blue', 'fish', 'abcd', 'test'])
         yield l, dict(coverage=0.5, save_sensitive=True)
         yield l, dict(coverage=0.95)
+    # coverages next to the two special values (exactly 0: Markov only, exactly 1: no Markov structure) are ordinary coverages
+    for l in c03.SCENARIOS[:4] + EXTRA[:4]:
+        for c in (1e-10, 1e-6, 0.9999999999, 0.999999):
+            yield l, dict(coverage=c)
 
 
 def shards(tier):
